@@ -25,6 +25,33 @@ theorem Int64.beq_iff (a b : Int64) : (a == b) = decide (a.toInt = b.toInt) := b
   · have : a.toInt ≠ b.toInt := fun e => h (Int64.toInt_inj.mp e)
     simp [h, this]
 
+/-- Go's overflow test for `a + b` with `b ≥ 0`: the wrapped sum is below `a` exactly when the exact sum does not fit;
+    when it fits, the wrapped sum is the exact one -/
+theorem Int64.add_wraps_iff (a b : Int64) (hb : 0 ≤ b.toInt) :
+    ((a + b < a) ↔ 2 ^ 63 ≤ a.toInt + b.toInt) ∧ (a.toInt + b.toInt < 2 ^ 63 → (a + b).toInt = a.toInt + b.toInt) := by
+  have ha1 := Int64.toInt_lt a
+  have ha2 := Int64.le_toInt a
+  have hb1 := Int64.toInt_lt b
+  rw [Int64.lt_iff_toInt_lt, Int64.toInt_add]
+  constructor
+  · constructor
+    · intro h
+      apply Decidable.byContradiction
+      intro hn
+      have : (a.toInt + b.toInt).bmod (2 ^ 64) = a.toInt + b.toInt := by
+        apply Int.bmod_eq_of_le <;> omega
+      omega
+    · intro h
+      have : (a.toInt + b.toInt).bmod (2 ^ 64) = a.toInt + b.toInt - 2 ^ 64 := by
+        rw [Int.bmod_def]
+        have h1 : (a.toInt + b.toInt) % ((2 ^ 64 : Nat) : Int) = a.toInt + b.toInt := by
+          apply Int.emod_eq_of_lt <;> omega
+        rw [h1]
+        split <;> omega
+      omega
+  · intro h
+    apply Int.bmod_eq_of_le <;> omega
+
 example : I64ok ((1700000000000000000 : Int64).toInt + (60000000000 : Int64).toInt) := by
   unfold I64ok; decide
 
